@@ -34,11 +34,20 @@ unsafe impl GlobalAlloc for CountingAlloc {
 
 pub struct FusePanic;
 
+/// The ledger is process-wide (rayon workers create and drop objects too); same access pattern
+/// as a thread-local RefCell.
+pub struct Glob<T>(std::sync::Mutex<RefCell<T>>);
+impl<T> Glob<T> {
+    pub fn with<R>(&self, f: impl FnOnce(&RefCell<T>) -> R) -> R {
+        let g = self.0.lock().unwrap_or_else(|e| e.into_inner());
+        f(&g)
+    }
+}
+pub static DK: Glob<Vec<u64>> = Glob(std::sync::Mutex::new(RefCell::new(Vec::new())));
+pub static DV: Glob<Vec<u64>> = Glob(std::sync::Mutex::new(RefCell::new(Vec::new())));
+pub static LIVE: Glob<BTreeSet<u64>> = Glob(std::sync::Mutex::new(RefCell::new(BTreeSet::new())));
+pub static VIOL: Glob<Vec<String>> = Glob(std::sync::Mutex::new(RefCell::new(Vec::new())));
 thread_local! {
-    pub static DK: RefCell<Vec<u64>> = RefCell::new(Vec::new());
-    pub static DV: RefCell<Vec<u64>> = RefCell::new(Vec::new());
-    pub static LIVE: RefCell<BTreeSet<u64>> = RefCell::new(BTreeSet::new());
-    pub static VIOL: RefCell<Vec<String>> = RefCell::new(Vec::new());
     pub static GRAVE: RefCell<Vec<Box<dyn std::any::Any>>> = RefCell::new(Vec::new());
 }
 
